@@ -188,7 +188,7 @@ def c08(F, R, tier):
 
 @prop("C01",
       technique="static: sign/variance typing of the requirement argument of every recursive linearize call against the post-processing applied to its result; relaxation tables evaluated over their finite domains; end-point polarity of big-M constants; dominance (apply_to_domain before construction); guard/field-set agreement",
-      explanation="PARTIAL (necessary structure). Decides (P-REQ) for each of the 19 recursive Exp::linearize calls and the helper entries: the requirement passed down equals the sign with which the returned value enters the caller's result (merge_sub / mul_by(-1) / mul_by(k) / div_by(k) tracked; `reversed`, `through_scale(k)`, `through_scale(1/k)` normalised), Exact accepted everywhere; (T-CONVEX) reversed/through_scale tables, abs exact-vs-one-sided table, (ExtremeKind, requirement)->one_sided table true only for (Max,PreferLower),(Min,PreferHigher), operand requirement table, one-sided row direction, row comparison->requirement table; (P-BIGM) big-M constants are U(aux)-L(operand) for max and U(operand)-L(aux) for min, abs factors 2L with (1-p) and 2U with p, exact rows' direction and combinator, pruning tests L(other)>=U(this) / U(other)<=L(this), sign-known abs shortcuts on L>=0 / U<=0 with the matching requirement, selectors sum to one; (D-APPLY) derived bounds are applied to the domain handed to the linearizer, declare_variable is the only writer of the domain and registers bounds too; (D-FINITE) big-M end-points are tested finite by the guard of the same arm. (T-NUM-TEMPLATES) the abs / min / max lowering arms of Exp::linearize and linearize_extreme (and the arithmetic arms that hand a requirement down: +, -, scale, division, negation) are evaluated from their HIR with the linearizer context replaced by a recorder and the bounds oracle by a table of intervals; for 13 interval classes of abs, 12 of binary min/max (dominated, overlapping, equal-fixed, half-bounded, unbounded), ternary and constant operands and 19 nested forms (abs of a sign-known or sign-unknown min/max, min/max of abs, negative scales and divisors, differences), each under the three value requirements (153 templates), the emitted rows and auxiliary domains are decided on a rational grid of operand values including non-integers: Exact -- some 0/1 selectors satisfy all rows iff the value equals f(operands); PreferLower/PreferHigher -- f(operands) stays reachable and nothing on the wrong side of it is let in; a refusal is accepted only when a needed bound is infinite; a row with a non-finite constant is rejected. NOT decided: that the rows are an exact encoding -- big-M magnitudes with the right polarity (2L vs L), ties between equal fixed operands, interplay with bound propagation, real (non-grid) points, and the logic-lowering templates (not built).")
+      explanation="PARTIAL (necessary structure). Decides (P-REQ) for each of the 19 recursive Exp::linearize calls and the helper entries: the requirement passed down equals the sign with which the returned value enters the caller's result (merge_sub / mul_by(-1) / mul_by(k) / div_by(k) tracked; `reversed`, `through_scale(k)`, `through_scale(1/k)` normalised), Exact accepted everywhere; (T-CONVEX) reversed/through_scale tables, abs exact-vs-one-sided table, (ExtremeKind, requirement)->one_sided table true only for (Max,PreferLower),(Min,PreferHigher), operand requirement table, one-sided row direction, row comparison->requirement table; (P-BIGM) big-M constants are U(aux)-L(operand) for max and U(operand)-L(aux) for min, abs factors 2L with (1-p) and 2U with p, exact rows' direction and combinator, pruning tests L(other)>=U(this) / U(other)<=L(this), sign-known abs shortcuts on L>=0 / U<=0 with the matching requirement, selectors sum to one; (D-APPLY) derived bounds are applied to the domain handed to the linearizer, declare_variable is the only writer of the domain and registers bounds too; (D-FINITE) big-M end-points are tested finite by the guard of the same arm. (T-NUM-TEMPLATES) the abs / min / max lowering arms of Exp::linearize and linearize_extreme (and the arithmetic arms that hand a requirement down: +, -, scale, division, negation) are evaluated from their HIR with the linearizer context replaced by a recorder and the bounds oracle being the crate's own BoundsAnalyzer::bounds_of over a table of variable intervals; for 13 interval classes of abs, 12 of binary min/max (dominated, overlapping, equal-fixed, half-bounded, unbounded), ternary and constant operands and 19 nested forms (abs of a sign-known or sign-unknown min/max, min/max of abs, negative scales and divisors, differences), each under the three value requirements (153 templates), the emitted rows and auxiliary domains are decided on a rational grid of operand values including non-integers: Exact -- some 0/1 selectors satisfy all rows iff the value equals f(operands); PreferLower/PreferHigher -- f(operands) stays reachable and nothing on the wrong side of it is let in; a refusal is accepted only when a needed bound is infinite; a row with a non-finite constant is rejected. NOT decided: that the rows are an exact encoding -- big-M magnitudes with the right polarity (2L vs L), ties between equal fixed operands, interplay with bound propagation, real (non-grid) points, and the logic-lowering templates (not built).")
 def c01(F, R, tier):
     import c01 as mod
     mod.check_c01(F, R)
@@ -204,7 +204,7 @@ def c02(F, R, tier):
 
 @prop("C07",
       technique="static: end-point polarity type system over the interval constructors; forward/inverse operation tables extracted from typed HIR; field-use and who-may-write rules; loop-bound and freeze rules",
-      explanation="PARTIAL. Decides (P-IVL) every Bounds::new / struct literal in bounds.rs builds its lower end-point from lower bounds (L) or exact constants and its upper from upper bounds, under the typing rules L+L=L, U+U=U, -L=U, branch-known sign of scale factors, min/max of equal polarity, loosening by the tolerance, ceil/floor only for integer ranges, max(L,0) only for non-negative variables; (T-BOUNDSOF) each Exp form is enclosed by the interval operation of the same name, min/max fold both end-points with min/max, products and quotients only by (non-zero) literals, everything else unbounded, logic forms [0,1]; (T-INVERSE) reverse propagation uses the inverse operation with the other operand's enclosure (Add, Sub, Mul c!=0, Div d!=0, Neg, affine rows), requirement table per comparison, intersect-first; (W-REVERSE) abs and max read only required.upper, min only required.lower, logic forms tighten nothing; (W-NANFREE) no raw end-point sums outside lower_sum/upper_sum, zero factors short-circuit; (W-WRITE) only tighten_variable stores ranges and it stores the intersection; (D-FREEZE, L-STEPS) propagation stops at the step limit and on a contradiction. NOT decided: the algebra of prefix/suffix sums, float rounding of propagated bounds, the published-range soundness as a whole (numeric).")
+      explanation="PARTIAL. Decides (P-IVL) every Bounds::new / struct literal in bounds.rs builds its lower end-point from lower bounds (L) or exact constants and its upper from upper bounds, under the typing rules L+L=L, U+U=U, -L=U, branch-known sign of scale factors, min/max of equal polarity, loosening by the tolerance, ceil/floor only for integer ranges, max(L,0) only for non-negative variables; (T-BOUNDSOF) each Exp form is enclosed by the interval operation of the same name, min/max fold both end-points with min/max, products and quotients only by (non-zero) literals, everything else unbounded, logic forms [0,1]; (T-INVERSE) reverse propagation uses the inverse operation with the other operand's enclosure (Add, Sub, Mul c!=0, Div d!=0, Neg, affine rows), requirement table per comparison, intersect-first; (W-REVERSE) abs and max read only required.upper, min only required.lower, logic forms tighten nothing; (W-NANFREE) no raw end-point sums outside lower_sum/upper_sum, zero factors short-circuit; (W-WRITE) only tighten_variable stores ranges and it stores the intersection; (D-FREEZE, L-STEPS) propagation stops at the step limit and on a contradiction. (T-IVL-SEM) BoundsAnalyzer::bounds_of with the Bounds arithmetic is evaluated from its typed HIR on 21 expression forms (negation, abs, sums, differences, positive / negative / zero scales and divisors, min, max, nestings) over 10 interval classes per variable (sign-known, sign-unknown, point, half-bounded, unbounded): every interval returned is well formed (no NaN, lower <= upper) and contains the form's value at every point of a rational operand grid. NOT decided: the algebra of prefix/suffix sums, float rounding of propagated bounds, the published-range soundness as a whole (numeric).")
 def c07(F, R, tier):
     import c07 as mod
     mod.check(F, R)
